@@ -49,7 +49,7 @@ def cases(tier, seed):
             "ftol": float(gen.pick(rng, [0.0, 1e-12, 1e-5, 1e-1])),
             "gtol": float(gen.pick(rng, [0.0, 1e-9, 1e-5, 1e-1])),
             "gtol_callable": bool(rng.random() < 0.3),
-            "target_kind": gen.pick(rng, [None, None, "below", "reachable", "above"]),
+            "target_kind": gen.pick(rng, [None, None, "below", "reachable", "above", "zero"]),
             "ftarget_callable": bool(rng.random() < 0.4),
             "cb": gen.pick(rng, [None, "never", "never", 1, 2, 4]),
         }
@@ -316,7 +316,8 @@ def run(spec):
         if fstar is None or not np.isfinite(fstar):
             fstar = f0 / usc - 1.0
         fstar = min(fstar * usc, f0)
-        cfg["ftarget"] = {"below": fstar - usc - abs(fstar), "reachable": fstar + 0.3 * (f0 - fstar) + 1e-12 * usc, "above": f0 + usc}[kind]
+        # ("zero": a target of exactly 0.0 - a falsy value -, reached or not)
+        cfg["ftarget"] = {"below": fstar - usc - abs(fstar), "reachable": fstar + 0.3 * (f0 - fstar) + 1e-12 * usc, "above": f0 + usc, "zero": 0.0}[kind]
     tags = dict(family=P.spec["family"])
     if spec.get("underflow"):
         tags["scenario"] = "gradient_underflow"
